@@ -260,8 +260,10 @@ AItOpen(e) ==
 \* ReplaceActual(B): contract B \subseteq postings, fresh general iterator
 AItReplace(e) ==
     /\ e.it \in DOMAIN its
+    \* a caller-owned bitmap (bm # 0) is read from the specification's own table: what the code did to the
+    \* caller's object in the meantime must not matter
     /\ its' = IF e.res.kind = "ok"
-              THEN [its EXCEPT ![e.it].actual = {e.docs[k] : k \in DOMAIN e.docs}]
+              THEN [its EXCEPT ![e.it].actual = IF e.bm # 0 THEN bms[e.bm].docs ELSE {e.docs[k] : k \in DOMAIN e.docs}]
               ELSE its
     \* contract: only a general (not 1-hit) iterator has an actual bitmap; a generator that replaces it
     \* on a 1-hit iterator is at fault, not ice
@@ -526,13 +528,17 @@ OutcomeBad(o, mode, L) ==
     ELSE \/ err \notin {"nil", "closed"}
          \/ (err = "nil" /\ (~complete \/ n # L))                \* success only for the complete file
 
+\* C11: a call that reports success returned the number of bytes its destination received
+CountBad(o) == o[2] = "nil" /\ o[6] # o[3]
+
 AWFault(e) ==
     LET bad == IF e.res.kind # "ok" THEN {"C12"}
-               ELSE IF \E i \in DOMAIN e.outcomes : OutcomeBad(e.outcomes[i], e.mode, e.L) THEN {"C12"} ELSE {}
+               ELSE (IF \E i \in DOMAIN e.outcomes : OutcomeBad(e.outcomes[i], e.mode, e.L) THEN {"C12"} ELSE {})
+                    \cup (IF e.mode # "close" /\ \E i \in DOMAIN e.outcomes : CountBad(e.outcomes[i]) THEN {"C11"} ELSE {})
         firstBad == IF e.res.kind = "ok" /\ bad # {}
-                    THEN e.outcomes[CHOOSE i \in DOMAIN e.outcomes : OutcomeBad(e.outcomes[i], e.mode, e.L)]
+                    THEN e.outcomes[CHOOSE i \in DOMAIN e.outcomes : OutcomeBad(e.outcomes[i], e.mode, e.L) \/ CountBad(e.outcomes[i])]
                     ELSE <<>>
-    IN /\ obs' = Obs("wfault", {"C12"}, bad, <<e.kind, e.mode, e.buf, e.L>>, firstBad)
+    IN /\ obs' = Obs("wfault", {"C11", "C12"}, bad, <<e.kind, e.mode, e.buf, e.L>>, firstBad)
        /\ Frame
 
 \* the harness dropped its temporary handles; forget them too (keeps the tables small)
